@@ -171,6 +171,7 @@ static int do_continue(const BYTE* src, const ll* blocks, int nb, int frame) {
     if (ldmOn) ZSTD_window_update(&ldm.window, src, srcSize, 0);
     if (!frame) {
         ZSTD_overflowCorrectIfNeeded(&ms, &ws, &params, src, src + srcSize);
+        if (ms.loadedDictEnd != ms.window.dictLimit) ms.dictMatchState = NULL;   /* /repo 00d59f3 (validated on real contexts: `blockapi` of c15_ctx.c) */
         block_search_effect(src, srcSize);
         ok &= exact_idx(&ms.window, src) & exact_idx(&ms.window, src + srcSize);
         return ok;
